@@ -121,5 +121,35 @@ func VerifC04_v1_ints() {
 		verifAssert("accepted:payload-h", (got.H != nil) == (hh.kind == wNumber) && (got.H == nil || int64(*got.H) == hh.v))
 		verifAssert("accepted:response-written-once", w.nHeaders == 1 && w.status == http.StatusNoContent)
 	}
+	// ---- C14: the published OpenAPI 3 contract against the same request
+	parts := map[string]any{}
+	switch bodyKind {
+	case 1:
+		parts["body-missing"] = true
+	case 2:
+		parts["body-malformed"] = true
+	default:
+		b := &server.IntsRequestBody{}
+		if aPresent {
+			b.A = &aVal
+		}
+		if bPresent {
+			b.B = &bVal
+		}
+		parts["body"] = b
+	}
+	addInt := func(key string, w wireInt) {
+		switch w.kind {
+		case wNumber:
+			parts[key] = w.v
+		case wJunk:
+			parts[key] = w.raw
+		}
+	}
+	addInt("path:p", p)
+	addInt("query:q", q)
+	addInt("header:X-H", hh)
+	specOK := verifSchemaAccepts(openapiDoc, "POST /ints/{p}", parts)
+	verifAssert("openapi:schema-accepts-iff-server-accepts", specOK == (called == 1))
 	verifReach("done")
 }
